@@ -611,6 +611,30 @@ def rule_r13(repo, run, types):
                   "(the wrappers reinterpret one struct as the other)" % [str(m.seg(l.iter)) for l in loops], m.loc(fn))
 
 
+def rule_r14(repo, run, table):
+    R = run.rule("C02.R14", "a class result is handed to C the way C++ returns it: a pointer or reference result is the address "
+                            "of the library's object, only a result by value is copied to the heap and owned by the caller")
+    n = 0
+    for lang in ("c", "c++"):
+        for sp, byvalue in (("*", False), ("&", False), ("scalar", True)):
+            e = table.lookup(["c", "shadow", sp, "result"], lang)
+            if e is None:
+                raise AnalysisError("C02.R14: no statements for c_shadow_%s_result" % sp)
+            n += 1
+            code = " ".join(l for c in ("pre_call", "call", "post_call") for l in e.lines(c))
+            allocates = re.search(r"\bnew\s+\{cxx_type\}", code) is not None
+            owner = str(e.get("owner") or "library")
+            run.check(R, "statements.fc_statements[c_shadow_%s_result<-%s]:%s" % (sp, e.name, lang),
+                      allocates == byvalue and (owner == "caller") == byvalue,
+                      "a class result returned %s resolves to entry %s, which %s and is owned by the %s: %s"
+                      % ("by value" if byvalue else "through `%s`" % sp, e.name,
+                         "copies it into `new {cxx_type}`" if allocates else "hands out its address", owner,
+                         "the C caller must get a copy it owns" if byvalue else
+                         "the C caller must get the library's own object (a.ref().bump() acts on a), not a heap copy"),
+                      table.loc(e.raw), sample=dict(path="c_shadow_%s_result" % sp, entry=e.name))
+    run.floor(R, "class result lookups", n, 6)
+
+
 def run(repo, run, tier):
     tables.check_model_assumptions(repo)
     table = tables.StatementTable(repo, "statements", "fc_statements")
@@ -627,4 +651,5 @@ def run(repo, run, tier):
     rule_r11(repo, run, table)
     rule_r12(repo, run)
     rule_r13(repo, run, types)
+    rule_r14(repo, run, table)
     rule_x(repo, run)
